@@ -5,7 +5,7 @@ for ID in "$@"; do
     [ -f /tmp/mut/$ID-out/patch$N.diff ] || continue
     R=$(/verif/tools/confirm_mutant.sh $ID $N 2>&1 | tail -1); echo "$R"
     if echo "$R" | grep -q "demo-without=0 build-with=0" && echo "$R" | grep -q "47 passed" && ! echo "$R" | grep -q "demo-with=0"; then
-      /verif/tools/run_mutant.sh /tmp/mut/$ID-out/patch$N.diff quick $ID 2>&1 | sed "s/^/   /"
+      /verif/tools/run_mutant.sh /tmp/mut/$ID-out/patch$N.diff quick ${ID:0:3} 2>&1 | sed "s/^/   /"
     else
       echo "   NOT CONFIRMED"
     fi
